@@ -239,6 +239,9 @@ func FocusOn(v interface{}) {}
 // node, token or comment of the lazily created input (executor only).
 func IsInputPos(p interface{}) bool { return true }
 
+// LastWarnArgs returns the arguments of the most recent diagnostic message (executor only).
+func LastWarnArgs() []interface{} { return nil }
+
 // TypeName returns the dynamic type of x as printed by go/types.
 func TypeName(x interface{}) string { return fmt.Sprintf("%T", x) }
 
